@@ -16,6 +16,11 @@ theorem fact_feemarket_endblock_last :
     (Gen.endBlockers.idxOf "evm" < Gen.endBlockers.idxOf "feemarket") ∧
     Gen.endBlockers.idxOf "feemarket" < Gen.endBlockers.length := by decide
 
+/-- … and after every end-blocker that can execute messages or change parameters (crisis, gov — which
+runs passed proposals, e.g. a fee-market `MsgUpdateParams` raising the minimum gas price — and staking):
+the base fee written for the next block is computed from, and clamped by, the final parameters -/
+theorem fact_feemarket_after_gov : Gen.endBlockers.take 5 = ["crisis", "gov", "staking", "evm", "feemarket"] := by decide
+
 /-- `MaxGas > 0` is the only condition under which a finite gas limit is used (model: `gasLimitOf`) -/
 theorem fact_maxgas_guard : Gen.calculateBaseFeeMaxGasConds = ["consParams.Block.MaxGas > 0"] := by decide
 
